@@ -669,6 +669,9 @@ func (c *EvalCtx) field(e *Expr) TV {
 			return c.fail("unknown ghost field %s", e.Name)
 		}
 		gt := c.typeByName(g.Type)
+		if gt == nil {
+			return c.fail("type %s of ghost field %s cannot be resolved here", g.Type, e.Name)
+		}
 		var r *Term
 		switch bv := base.V.(type) {
 		case StructV:
@@ -869,6 +872,10 @@ func (c *EvalCtx) callExpr(e *Expr) TV {
 		t := c.typeByName(strings.ReplaceAll(strings.TrimSpace(args[1].String()), " ", ""))
 		if t == nil {
 			return c.fail("unknown type %s", args[1])
+		}
+		if isStruct(t) {
+			// a struct value boxed in an interface lives at the interface's reference
+			return TV{V: StructV{H: c.cur.heap, Ref: c.mat(v, v.T), T: t}, T: t}
 		}
 		return TV{V: c.mat(v, v.T), T: t}
 	case "xzsentinel":
